@@ -438,10 +438,26 @@ func (c C14) Run(t *tape.Tape, opt core.RunOpt) (res core.Result) {
 				res.Count("fault_"+k, v)
 				faultFired = true
 			}
-			// what Parse was given, had everything been read: opened order is the
-			// library's map iteration order (observed, not controlled).
+			// what Parse is given when everything is read: every file that matches
+			// the patterns, in the library's map iteration order (observed, not
+			// controlled); a matching file the library did not open is appended,
+			// so that a "successful" ParseFS that skipped it differs from the model
+			order := append([]string(nil), fsys.Opened...)
+			if pats[0] != "[bad" {
+				for _, n := range names {
+					seen := false
+					for _, o := range order {
+						if o == n {
+							seen = true
+						}
+					}
+					if !seen {
+						order = append(order, n)
+					}
+				}
+			}
 			var cat []byte
-			for _, n := range fsys.Opened {
+			for _, n := range order {
 				d := fsys.Files[n]
 				if ff, ok := fsys.Faults[n]; ok && ff.Read.Kind == iosim.Truncate && ff.Read.K < len(d) {
 					d = d[:ff.Read.K]
